@@ -23,7 +23,7 @@ RULE = ("Hypothesis cases {config, base tree, pending changes, silent errors, co
         "jitter seed that makes the LD_PRELOAD shim yield or sleep pseudo-randomly inside every thread around each read and write, and "
         "a scan mode (threaded / sequential); clock and /dev/urandom are frozen so that the only free variable is the schedule. Oracle: "
         "all runs terminate (watchdog 120 s = >1000x the normal time, confirmed 3 times); exit status, parity files (byte for byte), the "
-        "independently parsed content model (free-space counters masked) and the multiset of error / parity_error / scan tags are equal "
+        "independently parsed content model (free-space counters masked) and the multiset of error / parity_error tags and error counters are equal "
         "to those of the single-threaded run; in the system-call trace every parity position of every level is written exactly once and "
         "only for stripes the single-threaded run wrote. Non-trivial: >= 2 worker threads, more stripes than cache slots + 2 (the ring "
         "wraps) and >= 1 stripe skipped or not written; distinct = (case hash, schedule).")
@@ -107,7 +107,11 @@ def masked_model(data):
 
 
 def observe(w, run, levels):
-    tags = sorted(b":".join(t) for t in run.tags if t[0] in (b"error", b"parity_error", b"scan") or (t[0] == b"summary"))
+    # the property speaks of errors, parity bytes and the array state.  scan:copy / scan:add and the scan counters are not part
+    # of it: whether a new file is first taken for a copy of a file that the same scan removes from another disk depends on
+    # the scan MODE (per-disk threads walk all disks before any removal is applied), and the state after the sync is the same
+    tags = sorted(b":".join(t) for t in run.tags if t[0] in (b"error", b"parity_error")
+                  or (t[0] == b"summary" and len(t) >= 2 and (t[1].startswith(b"error") or t[1] == b"exit")))
     par = [w.arr.read_parity(l) for l in range(levels)]
     content = w.arr.read_content()
     writes = {}
@@ -253,7 +257,7 @@ def run_case(case, ctx):
                 return Outcome(ok=False, why="%s: saved array state differs from the single-threaded run in %s" % (label, keys))
             if got["tags"] != ref["tags"]:
                 diff = sorted(set(got["tags"]) ^ set(ref["tags"]))[:3]
-                return Outcome(ok=False, why="%s: reported errors/scan tags differ from the single-threaded run: %r" % (label, diff))
+                return Outcome(ok=False, why="%s: reported errors differ from the single-threaded run: %r" % (label, diff))
             for k, v in got["writes"].items():
                 if v != 1:
                     return Outcome(ok=False, why="%s: parity position %r written %d times" % (label, k, v))
